@@ -117,6 +117,10 @@ func GenConfig(r *core.Rng, p *Profile) Config {
 	if r.Chance(1, 6) {
 		c.Keys = 9 + r.Intn(8)
 	}
+	many := r.Chance(1, 24)
+	if many {
+		c.Keys = 130 + r.Intn(300) // enough live entries for the hash table to grow (and shrink again)
+	}
 	switch k := r.Intn(10); {
 	case p.ForceSz && k < 5, !p.ForceSz && k < 3:
 		c.SizeKind = SizeCount
@@ -131,6 +135,9 @@ func GenConfig(r *core.Rng, p *Profile) Config {
 		if c.SizeKind == SizeWeight && r.Chance(1, 8) {
 			c.Maximum = 1000
 		}
+	}
+	if many && c.SizeKind != SizeNone && r.Chance(2, 3) {
+		c.Maximum = 1000
 	}
 	c.WBase = c.Maximum
 	if c.SizeKind != SizeNone && r.Chance(1, 16) {
@@ -172,11 +179,12 @@ func GenConfig(r *core.Rng, p *Profile) Config {
 
 // Gen produces operations online from the state of the model.
 type Gen struct {
-	R    *core.Rng
-	P    *Profile
-	Cfg  *Config
-	val  int
-	maxW uint64
+	R     *core.Rng
+	P     *Profile
+	Cfg   *Config
+	val   int
+	maxW  uint64
+	fresh int
 }
 
 func (g *Gen) newVal() int {
@@ -202,6 +210,10 @@ func (g *Gen) loadTime() int64 {
 }
 
 func (g *Gen) key() int {
+	if g.Cfg.Keys > 100 && g.R.Chance(1, 2) {
+		g.fresh++ // large key spaces are walked through, so that the number of live entries really grows
+		return g.fresh % g.Cfg.Keys
+	}
 	return g.R.Intn(g.Cfg.Keys)
 }
 
